@@ -30,7 +30,7 @@ def compile_module(prop, name, imports, text, timeout=600):
 
 
 def bundle_text(imports, local_modules, pre, evals):
-    t = [f"From PG Require Import {imports}."]
+    t = ["From Coq Require Import ZArith.", f"From PG Require Import {imports}."]
     for m in local_modules:
         t.append(f"Require Import {m}.")
     t.append("Local Open Scope N_scope.")
